@@ -629,6 +629,7 @@ pub fn run_c17(ctx: &Ctx) -> Outcome {
         }
         crate::fill::sweep(&mut out, &mut vs, ctx.tier.is_quick(), "C17");
         crate::c15::goaway_surfacing_for_c17(ctx, &mut out, &mut vs);
+        crate::c16::capacity_after_cancel_for_c17(ctx, &mut out, &mut vs);
         out.violations = vs.into_vec();
     }
     out
